@@ -55,10 +55,12 @@ def generate(prop, rng):
     ops = []
     kinds = [(3, "get"), (2, "contains"), (3, "iteritems"), (3, "ls"), (2, "info"), (1, "diff"),
              (2, "fs_ls"), (1, "fs_info"), (1, "fs_find"), (2, "fs_open"), (3, "view"), (1, "load"), (1, "reopen"),
-             (1, "evict_restore"), (2, "view_ls"), (1, "view_fs_find"), (3, "iter_nested")]
+             (1, "evict_restore"), (2, "view_ls"), (1, "view_fs_find"), (3, "iter_nested"), (1, "crash_load")]
     for _ in range(rng.randint(4, 20)):
         ops.append({"op": gen.weighted(rng, kinds), "r": rng.random(), "r2": rng.random(),
                     "shallow": rng.random() < 0.3, "detail": rng.random() < 0.5, "absent": rng.random() < 0.15})
+        if ops[-1]["op"] == "crash_load":
+            ops[-1].update(k=rng.randint(1, 12), how=rng.choice(["load", "iteritems", "ls", "info"]))
         if ops[-1]["op"] == "iter_nested":
             ops[-1].update(inner=rng.choice(["ls", "info_child", "get_child", "fs_ls", "other", "iter_prefix"]),
                            at_dir=rng.random() < 0.6, at=rng.randrange(5), view=rng.random() < 0.6)
@@ -400,6 +402,57 @@ def execute(sc, ctx):
                 L = DataIndex.open(w.p("idx", "L.db"))
                 L.storage_map.add_cache(ObjectStorage((), odb))
                 ctx.probe("sqlite_reopened")
+            continue
+        if op["op"] == "crash_load":
+            # another process starts loading directories of the SQLite-backed index and dies at its
+            # k-th write to the index file; whatever it left must not change any later answer
+            if sc["cfg"]["sqlite"]:
+                import sys
+
+                L.commit()
+                L.close()
+                sys.stdout.flush()
+                sys.stderr.flush()
+                pid = os.fork()
+                if pid == 0:
+                    try:
+                        from sqltrie.sqlite.sqlite import SQLiteTrie
+
+                        n_set = [0]
+                        real_set = SQLiteTrie.__setitem__
+
+                        def dying_set(self_, key, value):
+                            n_set[0] += 1
+                            if n_set[0] == op.get("k", 1):
+                                os._exit(77)
+                            return real_set(self_, key, value)
+
+                        SQLiteTrie.__setitem__ = dying_set
+                        C = DataIndex.open(w.p("idx", "L.db"))
+                        C.storage_map.add_cache(ObjectStorage((), odb))
+                        how = op.get("how", "load")
+                        dk = pick(sorted(dobjs), op["r"])
+                        if how == "load":
+                            C.load()
+                        elif how == "iteritems":
+                            list(C.iteritems())
+                        elif how == "ls":
+                            list(C.ls(dk, detail=False))
+                        else:
+                            C.info(dk + tuple(sorted(dobjs[dk][2])[0].split("/"))) if dobjs[dk][2] else C.info(dk)
+                        C.commit()
+                        C.close()
+                    except BaseException:  # noqa: BLE001
+                        os._exit(3)
+                    os._exit(0)
+                _, status = os.waitpid(pid, 0)
+                code = os.waitstatus_to_exitcode(status)
+                if code == 77:
+                    ctx.probe("loader_process_died_mid_load")
+                elif code != 0:
+                    raise HarnessError(f"crash_load child failed with {code}")
+                L = DataIndex.open(w.p("idx", "L.db"))
+                L.storage_map.add_cache(ObjectStorage((), odb))
             continue
         if op["op"] == "evict_restore":
             # the directory object is not in storage yet when first accessed (error
